@@ -135,6 +135,13 @@ def judge(W, run, trace):
                 viol.append({"oracle": "O4", "role": "private" if ev[1] != "public" else "public",
                              "group": "formula:" + fkind(ev), "kind": "foreign_atoms", "event": i,
                              "expected": {"foreign": 0}, "observed": out})
+        elif k == "formula_reuse" and ev[3].startswith("own_"):
+            # only across tables: what one table's parser hands out twice for the same string
+            # (the blank formula is one object per grammar) is not a matter of isolation
+            if (ev[4] or "public") != ev[1] and isinstance(out, dict) and (out["after"] != out["before"] or out["after"].get("foreign")):
+                viol.append({"oracle": "O4", "role": "private" if ev[4] not in ("public", None) else "public",
+                             "group": "formula:reuse:" + ev[3], "kind": "foreign_atoms" if out["after"].get("foreign") else "value_changed",
+                             "event": i, "expected": out["before"], "observed": out["after"]})
         elif k == "formula_reuse":
             if isinstance(out, dict) and not out["before"].get("foreign") and out["after"].get("foreign"):
                 viol.append({"oracle": "O4", "role": "private" if ev[1] != "public" else "public",
